@@ -72,7 +72,7 @@ CHECKS.update({
         "5 C08",
     ),
     "C10": (
-        "Lean theorems about the models of inverse_permutation, generators_inverse_map, with_inverted_generators, make_inverse_closed (and inv soundness for every float candidate) + exhaustive small-n correspondence",
+        "Lean theorems about the models of inverse_permutation, generators_inverse_map, with_inverted_generators, make_inverse_closed (and inv soundness for every float candidate) + the permutation branch of those four CayleyGraphDef methods REGENERATED from cayley_graph_def.py on every run by a Python-to-Lean translator (executed against the real objects; theorems `generated = model` in CvProps/C10g.lean where listed in the evidence) + exhaustive small-n correspondence",
         "Proof for permutation definitions (full) and soundness of matrix inversion for every candidate; completeness of the float-based matrix inverse is partial (IEEE floats are an oracle) and covered by the correspondence against an exact rational inverse.",
         "5 C10",
     ),
@@ -110,7 +110,7 @@ CHECKS.update({
         "5 C15",
     ),
     "C16": (
-        "Lean model of the GAP reader/printer (parse-print theorem) and puzzle structure predicates + all 92 shipped files against an independent reader + structure checks of generated cubes, rings, globes",
+        "Lean model of the GAP reader/printer (parse-print theorem) and puzzle structure predicates + puzzles/globe.py and puzzles/hungarian_rings.py REGENERATED from the source on every run by a Python-to-Lean translator with theorems `generated = specification` for all parameters (CvProps/C16g.lean, C16r.lean) + all 92 shipped files against an independent reader + structure checks of generated cubes, rings, globes",
         "Proof for the GAP reader model and ring/globe structure where finished; per-instance checked computations for cubes; exhaustive over the shipped files.",
         "5 C16",
     ),
